@@ -39,6 +39,14 @@ class DI:
 		"""
 		return self.__find_symbol(symbol) is not None
 
+	def _binded_symbols(self) -> list[type[Any]]:
+		"""登録済みのシンボルの一覧を取得
+
+		Returns:
+			シンボルリスト
+		"""
+		return list(self.__injectors.keys())
+
 	def bind(self, symbol: type[T_Inst], injector: Injector[T_Inst]) -> None:
 		"""シンボルとファクトリーのマッピングを登録
 
@@ -246,7 +254,8 @@ class DI:
 			raise TypeError(f'Merging not allowed. not related. self: {self.__class__}, other: {other.__class__}')
 
 		di = self._clone()
-		di.__instances = {**di.__instances, **other.__instances}
+		# XXX マージ対象が再定義したシンボルは、自身の生成済みインスタンスを引き継がない
+		di.__instances = {**{symbol: instance for symbol, instance in di.__instances.items() if symbol not in other.__injectors}, **other.__instances}
 		di.__injectors = {**di.__injectors, **other.__injectors}
 		return di
 
@@ -412,5 +421,10 @@ class LazyDI(DI):
 			```
 		"""
 		di = super().combine(other)
+		# XXX マージ対象が名前で再定義したシンボルは、自身の実体化済みのマッピング(インスタンスを含む)を引き継がない
+		for symbol in self._binded_symbols():
+			if to_fullyname(symbol) in other.__definitions and symbol not in other._binded_symbols():
+				DI.unbind(di, symbol)
+
 		di.__definitions = {**self.__definitions, **other.__definitions}
 		return di
